@@ -207,6 +207,9 @@ def run(rep: core.Report):
     _r11k(rep)
     _r11l(rep)
     _r11m(rep)
+    from rules import shared_sorted
+
+    shared_sorted.run(rep, "R11o", ["phonopy/phonon/dos.py", "phonopy/phonon/tetrahedron_mesh.py", "phonopy/structure/tetrahedron_method.py"])
     _r11f(rep, tu)
     _r11g(rep, tu, P)
     _r11h(rep, C)
